@@ -377,6 +377,53 @@ def pairLoop (f : α → α → β) : List α → List α → List β
   | a :: as, b :: bs => f a b :: pairLoop f as bs
   | _, _ => []
 
+/-! array:sort (functions.py `evaluate__array_sort`: `sorted(items, key=cmp_to_key(deep_compare …))`,
+default collation) on the fragment where every member is a sequence of numbers (integer, decimal,
+finite double) or every member is a sequence of xs:string values -/
+
+/-- sort key of an atomic item: a number by its exact value, a string by its code points -/
+inductive SKey where
+  | num (v : Rat) | str (s : List Nat)
+  deriving DecidableEq, Inhabited
+
+def Key.sortKey? : Key → Option SKey
+  | .int v => some (.num v)
+  | .dec v => some (.num v)
+  | .dbl v _ => some (.num v)
+  | .str s => some (.str s)
+  | _ => none
+
+def lexLtNat : List Nat → List Nat → Bool
+  | [], [] => false
+  | [], _ :: _ => true
+  | _ :: _, [] => false
+  | a :: as, b :: bs => if a < b then true else if b < a then false else lexLtNat as bs
+
+/-- strict order of sort keys (numbers before strings — the two never meet in one sort) -/
+def SKey.lt : SKey → SKey → Bool
+  | .num a, .num b => decide (a < b)
+  | .str a, .str b => lexLtNat a b
+  | .num _, .str _ => true
+  | .str _, .num _ => false
+
+/-- `deep_compare` of two sort keys (sequences): item by item, a proper prefix first -/
+def lexLe : List SKey → List SKey → Bool
+  | [], _ => true
+  | _ :: _, [] => false
+  | a :: as, b :: bs => if a.lt b then true else if b.lt a then false else lexLe as bs
+
+def memberKey (m : List Key) : Option (List SKey) := m.mapM Key.sortKey?
+
+def SKey.isNum : SKey → Bool | .num _ => true | .str _ => false
+
+/-- Python's stable `sorted` with the comparator above; XPTY0004 when numbers and strings are mixed
+(or a member is outside the fragment) -/
+def arrSortKeyed (ms : List (α × List SKey)) : Except Err (List α) :=
+  let ks := (ms.map (·.2)).flatten
+  if ks.all SKey.isNum || ks.all (fun k => !k.isNum) then
+    .ok ((ms.mergeSort fun a b => lexLe a.2 b.2).map (·.1))
+  else .error .XPTY0004
+
 /-! ## 3. heap machine -/
 
 inductive Item where
@@ -512,6 +559,7 @@ inductive Op where
   | aForEachPair (a b : Nat) (f : Fn2)           -- `array:for-each-pair($a, $b, f)`
   | mForEachF (m : Nat) (f : Fn2)                -- `map:for-each($m, f)`
   | deq (a b : Nat)                              -- `deep-equal($a, $b)`
+  | aSort (a : Nat)                              -- `array:sort($a)` (members: numbers only or strings only)
   | call (f k : Nat) (first : Bool)              -- `$f(K)`: K = `$k`, or its first item (`$k[1]`, `head($k)`)
   | call2 (t k1 k2 : Nat)                        -- `$t($k1)($k2)`
   deriving Inhabited
@@ -655,6 +703,18 @@ def callFn (d : Dialect) (s : Store) (f : Seq) (arg : Seq) : Except Err Seq :=
     | _ => .error .XPTY0004
   | _ => .error .XPTY0004
 
+/-- sort key of an array member (a sequence of atomic items of the fragment) -/
+def seqSortKey (m : Seq) : Option (List SKey) :=
+  m.mapM fun it => match it with
+    | .atom k => k.sortKey?
+    | .ref _ => none
+
+/-- `array:sort($a)` -/
+def arrSort (ms : List Seq) : Except Err (List Seq) :=
+  match ms.mapM (fun m => (seqSortKey m).map fun k => (m, k)) with
+  | some keyed => arrSortKeyed keyed
+  | none => .error .XPTY0004
+
 def allocMany (s : Store) : List Obj → Store × Seq
   | [] => (s, [])
   | o :: os =>
@@ -772,6 +832,10 @@ def evalOp (d : Dialect) (st : St) : Op → Except Err (Store × Seq)
       .ok (st.store, es.flatMap fun e => f.app [.atom e.1] e.2)
   | .deq a b =>
       .ok (st.store, boolItem (deepEqSeq d st.store (2 * st.store.length + 4) (st.var a) (st.var b)))
+  | .aSort a => do
+      let (_, ms) ← asArr st.store (st.var a)
+      let ms' ← arrSort ms
+      .ok (alloc st.store (.arr ms'))
   | .call f k first => do
       let r ← callFn d st.store (st.var f) (if first then (st.var k).take 1 else st.var k)
       .ok (st.store, r)
